@@ -313,6 +313,8 @@ def sl3456(F, R):
                     if a == strip_sites(v1):
                         member["v1"] = True
                         continue
+            if e.body.asserted(f, e.site):
+                continue
             extra.append(show(f, b))
         # v1's membership may come from the outer iteration walking the visited set itself
         if not member["v1"] and outer is not None and outer[0] == "item":
